@@ -66,10 +66,13 @@ impl HttpListener {
                     let state = state.clone();
                     let source = crate::common::try_map_v4_addr(source);
                     tokio::spawn(async move {
+                        let udp_timeout = state.timeouts.udp;
                         let res = match this.create_context(state, source, socket).await {
                             Ok(ctx) => {
-                                h11c_handshake(ctx, queue, |_, _| async { bail!("not supported") })
-                                    .await
+                                h11c_handshake(ctx, queue, udp_timeout, |_, _| async {
+                                    bail!("not supported")
+                                })
+                                .await
                             }
                             Err(e) => Err(e),
                         };
